@@ -267,6 +267,10 @@ var fileSeq struct {
 	n int
 }
 
+// maxQueryBytes: a query larger than this is not sent to the solvers (the obligation is reported undecided): such a
+// size means the contract needs restructuring (a spec function expanded too often), not more solver time.
+const maxQueryBytes = 24 << 20
+
 func writeSMT(text string) string {
 	fileSeq.Lock()
 	fileSeq.n++
@@ -313,6 +317,9 @@ func runSolver(ctx context.Context, sp solverSpec, file string, timeoutS int) *S
 
 // raceSolve runs the solvers concurrently; first definite answer wins.
 func raceSolve(text string, timeoutS int, which []string) *SolveResult {
+	if len(text) > maxQueryBytes {
+		return &SolveResult{Solver: "none", Status: "unknown", Output: fmt.Sprintf("query of %d MiB exceeds the size cap (%d MiB): restructure the contract", len(text)>>20, maxQueryBytes>>20)}
+	}
 	file := writeSMT(text)
 	ctx, cancel := context.WithCancel(context.Background())
 	defer cancel()
@@ -347,6 +354,9 @@ func raceSolve(text string, timeoutS int, which []string) *SolveResult {
 	cancel()
 	if best.Status != "sat" && best.Status != "unsat" {
 		best.Output = strings.Join(outs, "\n")
+	}
+	if best.Status == "unsat" {
+		os.Remove(file) // queries are kept only for obligations that did not discharge (scratch space is limited)
 	}
 	return best
 }
